@@ -130,6 +130,12 @@ func c08Pool() (pool []srule) {
 	// value lists with several entries of one polarity (their order must not depend on the parse)
 	pool = append(pool, srule{false, c08P1, []string{"domain=src.org|other.org|third.org"}}, srule{false, c08P1, []string{"domain=~a.org|~b.org|src.org"}},
 		srule{false, c08P1, []string{"denyallow=x.com|y.com|z.com"}})
+	// value lists of eight and of nine entries that differ in an entry another entry covers; long values that differ late
+	pool = append(pool, srule{false, c08P1, []string{"denyallow=d1.test|d2.test|d3.test|d4.test|d5.test|d6.test|d7.test|d8.test"}},
+		srule{false, c08P1, []string{"denyallow=d1.test|d2.test|d3.test|d4.test|d5.test|d6.test|d7.test|d8.test|sub.d1.test"}},
+		srule{false, c08P1, []string{"denyallow=d1.test|d2.test|d3.test|d4.test|d5.test|d6.test|d7.test|d8.test|d8.test"}},
+		srule{false, c08P1, []string{"dnsrewrite=NOERROR;TXT;" + strings.Repeat("a", 255) + "one"}},
+		srule{false, c08P1, []string{"dnsrewrite=NOERROR;TXT;" + strings.Repeat("a", 255) + "two"}})
 	// a rule of 4090 bytes: its twin is longer than 4 KiB
 	{
 		ds := []string{"src.org"}
